@@ -77,6 +77,8 @@ type FaultFunc func(typ string, id int64, f *FieldSpec, a ArgVal, batchMode bool
 
 // Env is the mutable environment the generated resolvers consult. One per bound schema.
 type Env struct {
+	// OnMutate is called by the generated mutation field bump(typ, id).
+	OnMutate func(ctx context.Context, typ string, id int64)
 	mu      sync.Mutex
 	Stats   *Stats
 	Perturb *Perturb
@@ -164,7 +166,13 @@ func Bind(s *Spec, modes Modes) (b *Bound, err error) {
 			registerField(s, env, obj, os.Type, goType, f, m)
 		}
 	}
-	// make sure O1..O4, Inner are registered even without fields (done above) and reachable
+	mut := schema.Mutation()
+	mut.FieldFunc("bump", func(ctx context.Context, a BumpArgs) bool {
+		if env.OnMutate != nil {
+			env.OnMutate(ctx, a.Typ, a.Id)
+		}
+		return true
+	})
 	built, err := schema.Build()
 	if err != nil {
 		return nil, err
@@ -288,7 +296,9 @@ func registerField(s *Spec, env *Env, obj *schemabuilder.Object, typName string,
 		ft := reflect.FuncOf(in, out, false)
 		return reflect.MakeFunc(ft, func(args []reflect.Value) []reflect.Value {
 			i := 0
+			var ctx context.Context
 			if m.Ctx {
+				ctx, _ = args[i].Interface().(context.Context)
 				i++
 			}
 			srcs := args[i]
@@ -317,6 +327,9 @@ func registerField(s *Spec, env *Env, obj *schemabuilder.Object, typName string,
 				id := ObjID(iter.Value())
 				if env.OnCall != nil {
 					env.OnCall(typName, id, f)
+				}
+				if env.OnCallCtx != nil && ctx != nil {
+					env.OnCallCtx(ctx, typName, id, f)
 				}
 				if env.Fault != nil && ferr == nil {
 					ferr = env.Fault(typName, id, f, a, true)
@@ -367,6 +380,12 @@ func registerField(s *Spec, env *Env, obj *schemabuilder.Object, typName string,
 	default:
 		obj.FieldFunc(f.Name, mkPlain(false), opts...)
 	}
+}
+
+// BumpArgs are the arguments of the generated mutation.
+type BumpArgs struct {
+	Typ string
+	Id  int64
 }
 
 // PanicErr asks a generated resolver to panic with Msg instead of returning an error.
